@@ -14,6 +14,9 @@ use vcore::report::*;
 pub fn alphabet(thorough: bool) -> Vec<(&'static str, &'static str)> {
     let mut v = vec![
         ("tab", "\t"),
+        // X.680 12.1.6: VERTICAL TABULATION and FORM FEED are white-space too
+        ("vertical-tab", "\u{0B}"),
+        ("form-feed", "\u{0C}"),
         ("newline", "\n"),
         ("crlf", "\r\n"),
         ("two-spaces", "  "),
